@@ -855,6 +855,12 @@ func famSesHostile(t *testing.T, r *Rec) {
 		body := append([]byte("4"), bytes_repeat('y', sz-1)...)
 		add(fmt.Sprintf("limit/ws-frame/size=%d", sz), "C10", "ses hs websocket 4 0 -", "ses frame 0 t "+hx(body), "ses frame 0 t 346f6b")
 	}
+	// a frame that does not decode on one connection, then a frame within the limit on another: what the second session
+	// is handed is its own frame and nothing of the first connection's (read buffers must not travel between connections)
+	for _, filler := range []int{20, 90} {
+		add(fmt.Sprintf("limit/ws-frame/after-undecodable-frame-elsewhere/%d", filler), "C10", "ses hs websocket 4 0 -", "ses hs websocket 4 0 -",
+			"ses frame 0 t "+hx(append([]byte("x4"), bytes_repeat('p', filler)...)), "ses frame 1 t "+hx(append([]byte("4"), bytes_repeat('y', filler)...)), "ses frame 1 t 346f6b")
+	}
 	// the limit on the JSONP flavour of polling (the body is the form field d=<payload>)
 	for _, sz := range []int{97, 98, 99, 197, 299, 5000} {
 		add(fmt.Sprintf("limit/jsonp-post/size=%d", sz+2), "C10", "ses hs polling 4 0 "+hx([]byte("7")), "ses postj s1 "+hx(append([]byte("4"), bytes_repeat('j', sz-1)...)))
